@@ -1,2 +1,2 @@
-/* fid: ptr-sub-right-incomplete (fixed 802a13f); msg: pointer operand to '-' must be to complete object type */
+/* fid: ptr-sub-right-incomplete (fixed ac293b9); msg: pointer operand to '-' must be to complete object type */
 int (*p)[3]; int (*q)[]; long f(void){ return p - q; }
